@@ -206,6 +206,9 @@ def wipe_sse():
         shutil.rmtree(p, ignore_errors=True) if os.path.isdir(p) else os.unlink(p)
 
 
+SERVER_PORTS = [8001]  # a server process may serve through more than one listener (run_server called once per port)
+
+
 async def server_main():
     """the repo's real server entry point, frontend/server/connector.run_server, on a fresh manager --
     what a freshly started server process has"""
@@ -214,7 +217,11 @@ async def server_main():
     # module-level state of the server's entry module as a new process has it: re-execute the module (its connection
     # manager, however it is created, starts from scratch)
     conn = importlib.reload(conn)
-    await conn.run_server("simhost", 8001)
+    if len(SERVER_PORTS) == 1:
+        await conn.run_server("simhost", SERVER_PORTS[0])
+    else:
+        import asyncio
+        await asyncio.gather(*[conn.run_server("simhost", port) for port in list(SERVER_PORTS)])
 
 
 class Watchdog:
